@@ -738,13 +738,16 @@ func rulePoolBuffers(c *Ctx) {
 			return
 		}
 		fname := "pool." + funcName(fd)
-		// the rotation itself (the function that moves currentSlot) shifts every generation in each branch: rotate.order's business
+		// the rotation itself (a function that moves currentSlot, or replaces a generation's buffer as a whole) shifts
+		// every generation in each branch: rotate.order's business. Filing and packing only read those fields.
 		rotates := false
 		ast.Inspect(fd.Body, func(nd ast.Node) bool {
 			if as, ok := nd.(*ast.AssignStmt); ok {
 				for _, l := range as.Lhs {
-					if sel, ok := ast.Unparen(l).(*ast.SelectorExpr); ok && sel.Sel.Name == "currentSlot" {
-						rotates = true
+					if sel, ok := ast.Unparen(l).(*ast.SelectorExpr); ok {
+						if s := pk.TypesInfo.Selections[sel]; s != nil && s.Kind() == types.FieldVal && recvNamed(s.Recv()) == "SyncCommitteePool" {
+							rotates = true
+						}
 					}
 				}
 			}
@@ -802,6 +805,16 @@ func rulePoolBuffers(c *Ctx) {
 		}
 	})
 	c.stat("generation_branches", n)
+}
+
+func recvNamed(t types.Type) string {
+	if p, ok := t.(*types.Pointer); ok {
+		t = p.Elem()
+	}
+	if nt, ok := t.(*types.Named); ok {
+		return nt.Obj().Name()
+	}
+	return ""
 }
 
 func sortStrings(a []string) {
